@@ -142,6 +142,27 @@ func (c *ctx) genShared() {
 			})
 		}
 	}
+	// what is put into a docVisitState's reader map: must be per-call clones
+	var dvrsStores []string
+	for _, k := range c.sortedFuncKeys() {
+		fd := c.funcs[k]
+		ast.Inspect(fd.Body, func(n ast.Node) bool {
+			as, ok := n.(*ast.AssignStmt)
+			if !ok || len(as.Lhs) != 1 || len(as.Rhs) != 1 {
+				return true
+			}
+			ix, ok := as.Lhs[0].(*ast.IndexExpr)
+			if !ok {
+				return true
+			}
+			if sel, ok := ix.X.(*ast.SelectorExpr); ok && sel.Sel.Name == "dvrs" {
+				dvrsStores = append(dvrsStores, fmt.Sprintf("(%s, %s)", leanStr(k), leanStr(c.dvrOriginExpr(fd, as.Rhs[0]))))
+			}
+			return true
+		})
+	}
+	sort.Strings(dvrsStores)
+	fmt.Fprintf(&sb, "/-- what is stored into a docVisitState's reader map: (function, origin of the stored reader) -/\ndef dvReaderMapStores : List (String × String) := [%s]\n\n", strings.Join(uniqStrings(dvrsStores), ", "))
 	sort.Strings(segWrites)
 	fmt.Fprintf(&sb, "/-- every store into a field of a Segment: (function, field, under the segment mutex) -/\ndef segmentWrites : List (String × String × Bool) := [%s]\n\n", strings.Join(uniqStrings(segWrites), ", "))
 	// callers of the functions that write without the lock
